@@ -38,3 +38,12 @@ chk("C26", TV,
     "for ALL values of all inputs (every frame and map byte symbolic), plus the three 'consequently' clauses, the "
     "enable bit, memory safety of every access and register initialisation.",
     BASE_NOTE, "SMT translation validation of the emitted control program, all inputs universally quantified (z3 BV)", "A:8/C26")
+
+chk("C06", MC,
+    "Bounded model checking over the real emitted bytes: k (2; thorough 2 and 3) instances of the compiled statement "
+    "`v += amount` / `v -= amount` share the map value memory; every instruction of every instance gets a symbolic time "
+    "slot (distinct, increasing along each instance), so ALL interleavings at instruction granularity, all initial "
+    "values and all amounts are covered by one query per shape; obligation: final == initial + sum of amounts and no "
+    "other map variable changes. A violating schedule is replayed on k concrete interpreters sharing one memory.",
+    BASE_NOTE + " BPF_XADD is one indivisible step (hardware/kernel contract).",
+    "SMT-based bounded model checking with symbolic scheduler over the emitted eBPF (z3 BV)", "A:8/C06")
